@@ -76,8 +76,8 @@ RES = '__CPROVER_return_value'
 GA = 'vx_sink_n, __CPROVER_object_whole(vx_sink), __CPROVER_object_whole(vx_gv), __CPROVER_object_whole(vx_gd), vx_g_i, vx_g_n'
 def _link_clause(i):
     return ('ensures', '[C04][C01] ghost record, digit position %d: |value_i| == 10 * |value_{i+1}| + digit_i with digit_i <= 9, and output character n-1-i (after the sign) is that digit' % i,
-            '((%d < vx_g_n) ==> (vx_gv[%d] == 10 * vx_gv[%d] + vx_gd[%d] && vx_gd[%d] <= 9 && vx_gv[%d] <= UINT64_MAX / 10 && vx_sink[vx_sink_n - 1 - %d] == 48 + vx_gd[%d]))'
-            % (i, i, i + 1, i, i, i + 1, i, i))
+            '((%d < vx_g_n) ==> (vx_gv[%d] == 10 * vx_gv[%d] + vx_gd[%d] && vx_gd[%d] <= 9 && vx_gv[%d] <= UINT64_MAX / 10 && vx_gd[%d] <= UINT64_MAX - 10 * vx_gv[%d] && vx_sink[vx_sink_n - 1 - %d] == 48 + vx_gd[%d]))'
+            % (i, i, i + 1, i, i, i + 1, i, i + 1, i, i))
 
 
 def GHOST_POST(mag, neg):
@@ -144,5 +144,7 @@ HARNESSES = LINKS + [
     Harness('dec_i64', 'h_dec_i64', enforce='dec_to_integer_i64', replace=['dec_to_integer_u64'], method='WU(22)', unwind=22, flags=US, props=['C04'], timeout=600),
     Harness('itoa_i64', 'h_itoa_i64', enforce='from_integer_i64', method='WU(22)', unwind=22, split=True, flags=US, props=['C04', 'C01', 'C08'], timeout=300),
     Harness('itoa_u64', 'h_itoa_u64', enforce='from_integer_u64', method='WU(22)', unwind=22, split=True, flags=US, props=['C04', 'C01', 'C08'], timeout=300)
-] + [Harness('lemma_int_rt', 'h_int_rt', replace=['from_integer_i64', 'from_integer_u64'], method='WU(22)', unwind=22, flags=US, split=True, props=['C04', 'C01'], timeout=600,
-             note='L-INT-RT: dec_to_integer(from_integer(v)) == v for all 2^64 bit patterns, signed and unsigned: real extracted body of dec_to_integer, from_integer through its contract (ghost digit record), explicit induction over the digits')]
+] + [Harness('lemma_int_rt_n%d' % n, 'h_int_rt', replace=['from_integer_i64', 'from_integer_u64'], method='WU(22)', unwind=22, flags=US, split=True, props=['C04', 'C01'], timeout=900,
+             defines=['VX_H_lemma_int_rt', 'VX_N=%d' % n],
+             note='L-INT-RT, case n=%d digits: dec_to_integer(from_integer(v)) == v, signed and unsigned: real extracted body of dec_to_integer, from_integer through its contract (ghost digit record), explicit induction over the digits' % n)
+     for n in range(1, 21)]
